@@ -21,7 +21,7 @@ THOROUGH = [(range(1, 11), 10, 20), (range(1, 11), 9, 10), (range(1, 13), 8, 12)
 
 
 def bounds(tier):
-    return {"planted": "B in {12,20,39,18,13,50} with 6-8 letters each" + ("" if tier == "quick" else " (+ B=39 with 10 letters, B=30 with 9 letters)") + ": every multiset of 3 patterns, " + ("every 5th multiset of 4 patterns" if tier == "quick" else "every multiset of 4 patterns, every 2nd / 7th of 5 patterns")
+    return {"planted": "B in {12,20,39,18,13,50} with 6-8 letters each" + ("" if tier == "quick" else " (+ B=39 with 10 letters, B=30 with 9 letters)") + ": every multiset of 3 patterns, " + ("every 5th multiset of 4 patterns" if tier == "quick" else "every multiset of 4 patterns (every 4th for the 9- and 10-letter sets), every 3rd multiset of 5 patterns for B=12 and B=13")
                        + " (a pattern = a partition of B into <=4 letters; optimum = number of patterns), each also with one item reduced by one",
             "scopes": [f"values {min(a)}..{max(a)} ({len(a)} letters), 1..{n} items, binsize {b}" for a, n, b in (QUICK if tier == "quick" else THOROUGH)]}
 
@@ -37,7 +37,12 @@ def _planted(tier):
     for B, letters in PLANT + ([] if q else [(39, (4, 5, 7, 11, 13, 14, 15, 16, 17, 18)), (30, (3, 4, 5, 7, 8, 9, 11, 12, 13))]):
         for m in ((3, 4) if q else (3, 4, 5)):
             step = 1 if (m == 3 or not q) else 5           # quick: every 5th four-pattern instance (enumeration order)
-            if m == 5: step = 7 if B in (20, 18) else 2
+            if m == 5:
+                if B not in (12, 13):                      # five patterns (15-20 items) only for the two small letter sets: search cost
+                    continue
+                step = 3
+            if m == 4 and len(letters) >= 9 and not q:
+                step = 4
             for idx, (items, _) in enumerate(spaces.planted(B, letters, m, maxparts=4)):
                 if idx % step:
                     continue
